@@ -1,6 +1,10 @@
 import Proofs.Lemmas.Tangent
 import Proofs.Lemmas.TangentMat
 import Proofs.Lemmas.TangentDeriv
+import Proofs.Lemmas.TangentBatch
+import Proofs.Lemmas.TangentBounds
+import Proofs.Lemmas.TangentBern
+import Proofs.Lemmas.TangentLog
 import Mathlib.NumberTheory.Bernoulli
 /-!
 # C05 — Adj, AdjT, Retr, +, Jinvp, Jr satisfy their defining tangent-space identities
@@ -305,6 +309,105 @@ theorem SO3_add_atomic_history (eps : ℝ) (os : List (List ℝ)) (X : Quat ℝ)
       exact ih X
 
 
+/-! ## one dispatch for every spelling of `+` (batched, broadcasting) -/
+section
+open Batch Batch.C05
+/-- **every spelling of `+` is the same item-wise map**: for broadcastable lshapes (for the in-place spellings: broadcasting to `X`'s own
+lshape), enough components, the call succeeds, the result has the broadcast lshape and last extent `d`, and item `i` is
+`retr (operand at proj i) (X at proj i)` — the spelling does not appear on the right-hand side. -/
+theorem lieAdd_spec {G : Type} (m d : Nat) (hd : 0 < d) (retr : List ℝ → G → G) (sp : AddSpelling) (alpha : ℝ)
+    (x : T G) (o : T (List ℝ)) (w : Nat) (out : Shape) (hw : m ≤ w) (hR : sp.isRetr = true → w = m)
+    (hb : broadcastShapes x.shape o.shape = some out) (hi : sp.inplace = true → out = x.shape) :
+    ∃ r, lieAdd m d retr sp alpha x o w = .ok r ∧ r.shape = out ∧ r.last = d ∧
+      ∀ i, inb out i → r.get i = retr (addOperand sp alpha (o.get (proj o.shape i))) (x.get (proj x.shape i)) := by
+  have hw' : ¬ w < m := by omega
+  by_cases hr : sp.isRetr = true
+  · have hwm : w = m := hR hr
+    have hb' : broadcastShapes (⟨o.shape, fun k => o.data k⟩ : T (List ℝ)).shape x.shape = some out := by
+      rw [broadcastShapes_comm]; exact hb
+    obtain ⟨r, h1, h2, h3, h4⟩ := broadcast_itemwise retr d d hd (⟨o.shape, fun k => o.data k⟩ : T (List ℝ)) x out hb'
+    refine ⟨r, ?_, h2, by rw [h3]; split <;> rfl, ?_⟩
+    · unfold lieAdd
+      subst hwm
+      simp [hr, h1]
+    · intro i hi'
+      rw [h4 i hi']
+      simp only [addOperand, hr, if_true]
+      try rfl
+  · have hr' : sp.isRetr = false := by simpa using hr
+    obtain ⟨r, h1, h2, h3, h4⟩ := add_itemwise retr d hd x (⟨o.shape, fun k => scaleList alpha (o.data k)⟩ : T (List ℝ)) out hb
+    refine ⟨r, ?_, h2, h3, ?_⟩
+    · unfold lieAdd
+      simp only [hw', if_false, hr', Bool.false_and, Bool.false_eq_true, h1]
+      by_cases hip : sp.inplace = true
+      · have : r.shape = x.shape := by rw [h2, hi hip]
+        simp [hip, this, h1]
+      · have : sp.inplace = false := by simpa using hip
+        simp [this, h1]
+    · intro i hi'
+      rw [h4 i hi']
+      simp only [addOperand, hr', Bool.false_eq_true, if_false]
+      rfl
+
+/-- the error paths of the dispatch: too few components -/
+theorem lieAdd_short {G : Type} (m d : Nat) (retr : List ℝ → G → G) (sp : AddSpelling) (alpha : ℝ) (x : T G) (o : T (List ℝ)) (w : Nat)
+    (h : w < m) : lieAdd m d retr sp alpha x o w = .error .short := by
+  unfold lieAdd; simp [h]
+/-- … lshapes that do not broadcast (every spelling) -/
+theorem lieAdd_not_broadcastable {G : Type} (m d : Nat) (retr : List ℝ → G → G) (sp : AddSpelling) (alpha : ℝ) (x : T G) (o : T (List ℝ))
+    (w : Nat) (hw : m ≤ w) (hR : sp.isRetr = true → w = m) (hb : broadcastShapes x.shape o.shape = none) :
+    lieAdd m d retr sp alpha x o w = .error .broadcast := by
+  have hw' : ¬ w < m := by omega
+  unfold lieAdd
+  by_cases hr : sp.isRetr = true
+  · have hb' : broadcastShapes o.shape x.shape = none := by rw [broadcastShapes_comm]; exact hb
+    simp [hw', hr, hR hr, binop, broadcastInputs, hb']
+  · have hr' : sp.isRetr = false := by simpa using hr
+    have hn : addOp retr d x (⟨o.shape, fun k => scaleList alpha (o.data k)⟩ : T (List ℝ)) = none := add_raises retr d x _ hb
+    simp [hw', hr', hn]
+/-- … an in-place spelling whose operand would enlarge `X` (D14 is about the OUT-of-place spellings: they succeed, `lieAdd_spec`) -/
+theorem lieAdd_inplace_enlarging {G : Type} (m d : Nat) (hd : 0 < d) (retr : List ℝ → G → G) (sp : AddSpelling) (alpha : ℝ) (x : T G)
+    (o : T (List ℝ)) (w : Nat) (out : Shape) (hw : m ≤ w) (hip : sp.inplace = true)
+    (hb : broadcastShapes x.shape o.shape = some out) (hne : out ≠ x.shape) :
+    lieAdd m d retr sp alpha x o w = .error .inplaceShape := by
+  have hw' : ¬ w < m := by omega
+  have hr' : sp.isRetr = false := by cases sp <;> simp_all [AddSpelling.inplace, AddSpelling.isRetr]
+  obtain ⟨r, h1, h2, h3, h4⟩ := add_itemwise retr d hd x (⟨o.shape, fun k => scaleList alpha (o.data k)⟩ : T (List ℝ)) out hb
+  unfold lieAdd
+  simp only [hw', if_false, hr', Bool.false_and, Bool.false_eq_true, h1, hip, Bool.true_and]
+  have : r.shape ≠ x.shape := by rw [h2]; exact hne
+  simp [this]
+
+/-- **`+`, `add`, `pp.add`, `add_`, `pp.add_`, `Retr`, `pp.Retr` all denote `Exp(alpha·a)·X`** on SO3, item by item under torch
+broadcasting, whatever extra components each row of `other` carries (`alpha = 1` for the Retr spellings). -/
+theorem SO3_all_spellings (eps alpha : ℝ) (sp : AddSpelling) (x : T (Quat ℝ)) (s : Shape) (a : Nat → Vec3 ℝ) (ex : Nat → List ℝ) (w : Nat)
+    (out : Shape) (hw : 3 ≤ w) (hR : sp.isRetr = true → w = 3) (hb : broadcastShapes x.shape s = some out)
+    (hi : sp.inplace = true → out = x.shape) :
+    ∃ r, lieAdd 3 4 (SO3retrItem eps) sp alpha x ⟨s, fun k => (a k).toList ++ ex k⟩ w = .ok r ∧ r.shape = out ∧ r.last = 4 ∧
+      ∀ i, inb out i →
+        r.get i = (so3Exp eps ((a (ravel s (proj s i))).smul (if sp.isRetr then 1 else alpha))).mul (x.get (proj x.shape i)) := by
+  obtain ⟨r, h1, h2, h3, h4⟩ := lieAdd_spec 3 4 (by norm_num) (SO3retrItem eps) sp alpha x ⟨s, fun k => (a k).toList ++ ex k⟩ w out hw hR hb hi
+  refine ⟨r, h1, h2, h3, fun i hi' => ?_⟩
+  rw [h4 i hi']
+  exact SO3retrItem_eq eps alpha sp _ _ _
+theorem Sim3_all_spellings (eps alpha : ℝ) (sp : AddSpelling) (x : T (Sim3 ℝ)) (s : Shape) (a : Nat → sim3 ℝ) (ex : Nat → List ℝ) (w : Nat)
+    (out : Shape) (hw : 7 ≤ w) (hR : sp.isRetr = true → w = 7) (hb : broadcastShapes x.shape s = some out)
+    (hi : sp.inplace = true → out = x.shape) :
+    ∃ r, lieAdd 7 8 (Sim3retrItem eps) sp alpha x ⟨s, fun k => (a k).toList ++ ex k⟩ w = .ok r ∧ r.shape = out ∧ r.last = 8 ∧
+      ∀ i, inb out i →
+        r.get i = Sim3Mul (sim3Exp eps ⟨(a (ravel s (proj s i))).tau.smul (if sp.isRetr then 1 else alpha),
+            (a (ravel s (proj s i))).phi.smul (if sp.isRetr then 1 else alpha),
+            (if sp.isRetr then 1 else alpha) * (a (ravel s (proj s i))).sigma⟩) (x.get (proj x.shape i)) := by
+  obtain ⟨r, h1, h2, h3, h4⟩ := lieAdd_spec 7 8 (by norm_num) (Sim3retrItem eps) sp alpha x ⟨s, fun k => (a k).toList ++ ex k⟩ w out hw hR hb hi
+  refine ⟨r, h1, h2, h3, fun i hi' => ?_⟩
+  rw [h4 i hi']
+  exact Sim3retrItem_eq eps alpha sp _ _ _
+
+/-- non-vacuity: lshapes `(2,1)` and `(3,)` broadcast to `(2,3)` — the out-of-place spellings succeed although `other` enlarges `X` (D14) -/
+example : broadcastShapes [2, 1] [3] = some [2, 3] := by decide
+example : AddSpelling.plus.inplace = false ∧ AddSpelling.addInplace.inplace = true ∧ AddSpelling.ppRetr.isRetr = true := by decide
+end
+
 /-! ## Jinvp -/
 
 theorem SO3_Jinvp_eq (eps : ℝ) (X : Quat ℝ) (p : Vec3 ℝ) :
@@ -344,6 +447,26 @@ theorem RxSO3_Jinvp_spec (eps : ℝ) (h0 : 0 ≤ eps) (X : RxSO3 ℝ) (p : rxso3
   rw [RxSO3_Jinvp_eq]
   unfold rxso3Jl rxso3JlInv rxso3.toList
   rw [block31_mulVec, block31_mulVec, ← Mat3.mul_mulVec, so3Jl_mul_so3JlInv eps h0 _ h hs, Mat3.one_mulVec]
+
+/-- `Jinvp` solves `Jl(Log X)·y = p` and is the only solution — for EVERY valid `X` whose rotation angle exceeds `eps` (the guard of the
+code's closed-form branch): the side condition `sin(θ/2) ≠ 0` of `SO3_Jinvp_spec` holds automatically because `θ = ‖Log X‖ ≤ π`. -/
+theorem SO3_Jinvp_spec_valid (eps : ℝ) (h0 : 0 ≤ eps) (he : eps ≤ 1 / 2) (X : Quat ℝ) (hX : SO3.Valid X) (p : Vec3 ℝ)
+    (h : eps < (SO3Log eps X).norm) :
+    (so3Jl eps (SO3Log eps X)).mulVec (SO3Jinvp eps X p) = p ∧
+      ∀ y, (so3Jl eps (SO3Log eps X)).mulVec y = p → y = SO3Jinvp eps X p :=
+  ⟨SO3_Jinvp_spec eps h0 X p h (SO3Log_sin_half_ne_zero eps X hX h0 he h),
+   fun y hy => SO3_Jinvp_unique eps h0 X p y h (SO3Log_sin_half_ne_zero eps X hX h0 he h) hy⟩
+theorem SE3_Jinvp_spec_valid (eps : ℝ) (h0 : 0 ≤ eps) (he : eps ≤ 1 / 2) (X : SE3 ℝ) (hX : SE3.Valid X) (p : se3 ℝ)
+    (h : eps < (SE3Log eps X).phi.norm) :
+    (se3Jl eps (SE3Log eps X)).mulVec (SE3Jinvp eps X p) = p.toList ∧
+      ∀ y : se3 ℝ, (se3Jl eps (SE3Log eps X)).mulVec y.toList = p.toList → y.toList = SE3Jinvp eps X p :=
+  ⟨SE3_Jinvp_spec eps h0 X p h (SO3Log_sin_half_ne_zero eps X.q hX h0 he h),
+   fun y hy => SE3_Jinvp_unique eps h0 X p y h (SO3Log_sin_half_ne_zero eps X.q hX h0 he h) hy⟩
+theorem RxSO3_Jinvp_spec_valid (eps : ℝ) (h0 : 0 ≤ eps) (he : eps ≤ 1 / 2) (X : RxSO3 ℝ) (hX : RxSO3.Valid X) (p : rxso3 ℝ)
+    (h : eps < (RxSO3Log eps X).phi.norm) :
+    (rxso3Jl eps (RxSO3Log eps X)).mulVec (RxSO3Jinvp eps X p) = p.toList :=
+  RxSO3_Jinvp_spec eps h0 X p h (SO3Log_sin_half_ne_zero eps X.q hX.1 h0 he h)
+
 
 /-- the scale component passes through `Jinvp` unchanged for RxSO3 -/
 theorem RxSO3_Jinvp_sigma (eps : ℝ) (X : RxSO3 ℝ) (p : rxso3 ℝ) :
@@ -408,6 +531,123 @@ theorem sim3JlInv_bernoulli :
   · rw [h3]; simp
   · rw [h4]; norm_num [Nat.factorial]
   · rw [h5]; simp
+
+/-! ## `calcQ`: the two coefficient branches agree at the switch -/
+
+/-- the model's `calcQ` is `calcQWith` of the closed-form coefficients above the switch `θ = 0.05` and of the series below -/
+theorem calcQ_eq_with (eps : ℝ) (x : se3 ℝ) :
+    calcQ eps x = calcQWith (if (5 : ℝ) / 100 < x.phi.norm then calcQClosed x.phi.norm else calcQSeries x.phi.norm) x := by
+  unfold calcQ calcQWith calcQM1 calcQM2 calcQM3 calcQClosed calcQSeries
+  by_cases h : (5 : ℝ) / 100 < x.phi.norm
+  · simp only [lt_real, q_real, k_real, Nat.cast_ofNat, Nat.cast_one, h, decide_true, if_true, sin_real, cos_real]
+  · simp only [lt_real, q_real, k_real, Nat.cast_ofNat, Nat.cast_one, h, decide_false, if_false, Bool.false_eq_true]
+
+/-- `calcQ` is affine in its coefficients: the two branches differ by the coefficient differences times the fixed matrices -/
+theorem calcQWith_sub (c c' : ℝ × ℝ × ℝ) (x : se3 ℝ) :
+    Mat3.sub (calcQWith c x) (calcQWith c' x)
+      = Mat3.add (Mat3.add (Mat3.smul (c.1 - c'.1) (calcQM1 x)) (Mat3.smul (c.2.1 - c'.2.1) (calcQM2 x)))
+          (Mat3.smul (c.2.2 - c'.2.2) (calcQM3 x)) := by
+  unfold calcQWith
+  generalize calcQM1 x = M1; generalize calcQM2 x = M2; generalize calcQM3 x = M3
+  ext <;> lie_unfold <;> ring
+/-- **agreement of the two branches of `calcQ`** : for every `0 < θ ≤ 1` (in particular at the switch `θ = 0.05`, where it gives
+`≤ 5.3e-14`, `5.3e-15`, `3.2e-15`) the closed-form coefficients differ from the series coefficients by at most
+`θ⁶/300000`, `θ⁶/3000000`, `θ⁶/5000000`. -/
+theorem calcQ_coef1_agree (th : ℝ) (h0 : 0 < th) (h1 : th ≤ 1) :
+    |(calcQClosed th).1 - (calcQSeries th).1| ≤ th ^ 6 / 300000 := by
+  have hr := sin_rem th h0 h1
+  set r := Real.sin th - (th - th ^ 3 / 6 + th ^ 5 / 120 - th ^ 7 / 5040 + th ^ 9 / 362880) with hrd
+  have hne : th ≠ 0 := ne_of_gt h0
+  have e : (calcQClosed th).1 - (calcQSeries th).1 = -(th ^ 6 / 362880) - r / th ^ 3 := by
+    simp only [calcQClosed, calcQSeries, hrd]; field_simp; ring
+  rw [e]
+  have hb : |r / th ^ 3| ≤ th ^ 8 * (12 / 439084800) := by
+    rw [abs_div, abs_of_pos (pow_pos h0 3), div_le_iff₀ (pow_pos h0 3)]
+    calc |r| ≤ th ^ 11 * (12 / 439084800) := hr
+      _ = th ^ 8 * (12 / 439084800) * th ^ 3 := by ring
+  have h8 : th ^ 8 ≤ th ^ 6 := pow_le_of_le_one' th h0 h1 2
+  have h6 : 0 ≤ th ^ 6 := by positivity
+  have habs : |-(th ^ 6 / 362880) - r / th ^ 3| ≤ th ^ 6 / 362880 + |r / th ^ 3| := by
+    calc |-(th ^ 6 / 362880) - r / th ^ 3| ≤ |-(th ^ 6 / 362880)| + |r / th ^ 3| := abs_sub _ _
+      _ = th ^ 6 / 362880 + |r / th ^ 3| := by rw [abs_neg, abs_of_nonneg (by positivity)]
+  linarith
+
+theorem calcQ_coef2_agree (th : ℝ) (h0 : 0 < th) (h1 : th ≤ 1) :
+    |(calcQClosed th).2.1 - (calcQSeries th).2.1| ≤ th ^ 6 / 3000000 := by
+  have hr := cos_rem th h0 h1
+  set r := Real.cos th - (1 - th ^ 2 / 2 + th ^ 4 / 24 - th ^ 6 / 720 + th ^ 8 / 40320) with hrd
+  have hne : th ≠ 0 := ne_of_gt h0
+  have e : (calcQClosed th).2.1 - (calcQSeries th).2.1 = r / th ^ 4 := by
+    simp only [calcQClosed, calcQSeries, hrd]; field_simp; ring
+  rw [e, abs_div, abs_of_pos (pow_pos h0 4), div_le_iff₀ (pow_pos h0 4)]
+  calc |r| ≤ th ^ 10 * (11 / 36288000) := hr
+    _ = th ^ 6 * (11 / 36288000) * th ^ 4 := by ring
+    _ ≤ th ^ 6 / 3000000 * th ^ 4 := by
+        have : 0 ≤ th ^ 6 * th ^ 4 := by positivity
+        nlinarith
+
+theorem calcQ_coef3_agree (th : ℝ) (h0 : 0 < th) (h1 : th ≤ 1) :
+    |(calcQClosed th).2.2 - (calcQSeries th).2.2| ≤ th ^ 6 / 5000000 := by
+  have hs := sin_rem th h0 h1
+  have hc := cos_rem th h0 h1
+  set rs := Real.sin th - (th - th ^ 3 / 6 + th ^ 5 / 120 - th ^ 7 / 5040 + th ^ 9 / 362880) with hsd
+  set rc := Real.cos th - (1 - th ^ 2 / 2 + th ^ 4 / 24 - th ^ 6 / 720 + th ^ 8 / 40320) with hcd
+  have hne : th ≠ 0 := ne_of_gt h0
+  have e : (calcQClosed th).2.2 - (calcQSeries th).2.2 = (-3 * rs + th * rc) / (2 * th ^ 5) := by
+    simp only [calcQClosed, calcQSeries, hsd, hcd]; field_simp; ring
+  rw [e, abs_div, abs_of_pos (by positivity : (0:ℝ) < 2 * th ^ 5), div_le_iff₀ (by positivity)]
+  have h1' : |-3 * rs + th * rc| ≤ 3 * |rs| + th * |rc| := by
+    calc |-3 * rs + th * rc| ≤ |-3 * rs| + |th * rc| := abs_add_le _ _
+      _ = 3 * |rs| + th * |rc| := by rw [abs_mul, abs_mul, abs_of_pos h0]; norm_num
+  have h11 : th ^ 11 ≤ th ^ 11 := le_refl _
+  have hp : 0 ≤ th ^ 11 := by positivity
+  calc |-3 * rs + th * rc| ≤ 3 * |rs| + th * |rc| := h1'
+    _ ≤ 3 * (th ^ 11 * (12 / 439084800)) + th * (th ^ 10 * (11 / 36288000)) := by
+        have := mul_le_mul_of_nonneg_left hc (le_of_lt h0)
+        linarith
+    _ = th ^ 11 * (3 * (12 / 439084800) + 11 / 36288000) := by ring
+    _ ≤ th ^ 6 / 5000000 * (2 * th ^ 5) := by
+        have : th ^ 6 / 5000000 * (2 * th ^ 5) = th ^ 11 * (2 / 5000000) := by ring
+        rw [this]; nlinarith
+
+/-! ## Sim3 `Jinvp`: remainder of the truncated Bernoulli series (and of the truncated `sim3_Jl`) -/
+
+section
+open scoped Matrix.Norms.Operator
+open PP.Bern
+
+/-- the series `Σ adⁿ/(n+1)!` is the (exact) left Jacobian of the matrix exponential: `J_l(ad ξ)·ad ξ = exp(ad ξ) − 1` -/
+theorem sim3_JlSeries_is_left_jacobian (x : sim3 ℝ) :
+    JlSeries (sim3adM x) * sim3adM x = NormedSpace.exp (sim3adM x) - 1 := JlSeries_mul_self (sim3adM x)
+
+/-- a checkable bound of the row-sum norm of `ad ξ`: `‖ad ξ‖ ≤ |σ| + ‖φ‖₁ + ‖τ‖₁` -/
+theorem norm_sim3adM_le (x : sim3 ℝ) :
+    ‖sim3adM x‖ ≤ |x.sigma| + (|x.phi.x| + |x.phi.y| + |x.phi.z|) + (|x.tau.x| + |x.tau.y| + |x.tau.z|) := norm_sim3ad_le x
+
+/-- **Sim3 `Jinvp`: the documented truncation as a theorem.**  With the row-sum operator norm, for every `ξ` with `‖ad ξ‖ ≤ 1` the
+matrix the code multiplies by (`sim3_Jl_inv ξ = 1 − ad/2 + ad²/12 − ad⁴/720`) is a left inverse of the exact left Jacobian
+`J_l(ξ) = Σ adⁿ/(n+1)!` up to `‖ad ξ‖⁶/7500` … -/
+theorem sim3JlInv_truncation_bound (x : sim3 ℝ) (h : ‖sim3adM x‖ ≤ 1) :
+    ‖DMat.toM 7 (sim3JlInv x) * JlSeries (sim3adM x) - 1‖ ≤ ‖sim3adM x‖ ^ 6 / 7500 := by
+  rw [toM_sim3JlInv]; exact bernTrunc_mul_JlSeries (sim3adM x) h
+
+/-- … and `J_l(ξ)` is invertible with `‖sim3_Jl_inv ξ − J_l(ξ)⁻¹‖ ≤ ‖ad ξ‖⁶/4700`: the distance of `Jinvp` from the exact
+"inverse left Jacobian at Log X applied to p" is at most `‖ad ξ‖⁶/4700 · ‖p‖∞`. -/
+theorem sim3JlInv_inverse_distance (x : sim3 ℝ) (h : ‖sim3adM x‖ ≤ 1) :
+    ∃ J : Matrix (Fin 7) (Fin 7) ℝ, J * JlSeries (sim3adM x) = 1 ∧ JlSeries (sim3adM x) * J = 1 ∧
+      ‖DMat.toM 7 (sim3JlInv x) - J‖ ≤ ‖sim3adM x‖ ^ 6 / 4700 := by
+  rw [toM_sim3JlInv]; exact bernTrunc_sub_inverse (sim3adM x) h
+
+/-- the same for the forward matrix: `sim3_Jl ξ` (six terms) is within `‖ad ξ‖⁶/4320` of the exact left Jacobian -/
+theorem sim3Jl_truncation_bound (x : sim3 ℝ) (h : ‖sim3adM x‖ ≤ 1) :
+    ‖JlSeries (sim3adM x) - DMat.toM 7 (sim3Jl x)‖ ≤ ‖sim3adM x‖ ^ 6 / 4320 := by
+  rw [toM_sim3Jl]; exact jl6_sub_JlSeries (sim3adM x) h
+
+/-- non-vacuity: `ξ = (τ; φ; σ) = (0.1, 0, 0.2; 0.1, −0.1, 0; 0.3)` has `‖ad ξ‖ ≤ 0.8 ≤ 1` -/
+example : ‖sim3adM ⟨⟨0.1, 0, 0.2⟩, ⟨0.1, -0.1, 0⟩, 0.3⟩‖ ≤ 1 := by
+  refine le_trans (norm_sim3adM_le _) ?_
+  norm_num [abs_of_pos, abs_of_neg]
+end
 
 /-! ## Jr -/
 
